@@ -24,6 +24,11 @@ ASSUMPTIONS = []
 A_RULES = '''
 field.description = regex_replace(field.description, "^q$", "A")
 is_pay = contains(field.memo, "P")
+is_q = description == "zz"
+
+[Bare]
+match: is_q
+category: Bare
 
 [Salary]
 match: is_pay and amount > 10
@@ -58,18 +63,37 @@ tags: {code}
 match: regex("X\\\\D")
 category: NonDigit
 
+[RxName]
+match: regex("is_q")
+category: RxName
+
 [Rest]
 match: contains("A")
 category: RestB
 subcategory: SubB
 '''
 
+# most_specific mode: same rules, priorities swapped between the two files
+MA_RULES = '''
+[P]
+match: contains("A")
+category: PWins
+priority: 90
+
+[Q]
+match: contains("A")
+category: QLoses
+subcategory: SubQ
+priority: 10
+'''
+MB_RULES = MA_RULES.replace('priority: 90', 'priority: 1').replace('priority: 10', 'priority: 90').replace('PWins', 'PLoses').replace('QLoses', 'QWins')
+
 C_CSV = 'Pattern,Merchant,Category,Subcategory,Tags\\nA,MerchC,CatC,SubC,c\\nX\\\\d[amount>5],XD,CatXD,,\\n'
 
 EXPRS = ['regex("X\\\\d")', 'regex("X\\\\D")', 'regex("x\\\\d")', '(code := "7") == "7"', 'contains("A") and amount > 3', 'CONTAINS("a") and AMOUNT > 3']
 
 _FILES = {}
-DESCS = ['A', 'X1', 'Xy', 'R7', 'q']
+DESCS = ['A', 'X1', 'Xy', 'R7', 'q', 'is_q']
 MEMOS = ['P', '77', 'x', None]      # None = the row has no memo column at all
 
 
@@ -79,11 +103,11 @@ def files():
         _FILES.update(json.loads(os.environ['VERIF_C07_FILES']))
     if not _FILES:
         d = tempfile.mkdtemp(prefix='verif_c07_')
-        for name, text in (('A.rules', A_RULES), ('B.rules', B_RULES), ('C.csv', C_CSV)):
+        for name, text in (('A.rules', A_RULES), ('B.rules', B_RULES), ('C.csv', C_CSV), ('MA.rules', MA_RULES), ('MB.rules', MB_RULES)):
             p = os.path.join(d, name)
             with open(p, 'w') as f:
                 f.write(text.replace('\\\\', '\\').replace('\\n', '\n') if name == 'C.csv' else text.replace('\\\\', '\\'))
-            _FILES[name[0]] = p
+            _FILES[name.split('.')[0]] = p
         _FILES['N'] = None
     return _FILES
 
@@ -107,7 +131,7 @@ def _table_path():
             if fn.endswith('.py'):
                 with open(os.path.join(root, fn), 'rb') as f:
                     h.update(f.read())
-    h.update((A_RULES + B_RULES + C_CSV + repr(DESCS) + repr(MEMOS)).encode())
+    h.update((A_RULES + B_RULES + C_CSV + MA_RULES + MB_RULES + repr(DESCS) + repr(MEMOS)).encode())
     d = os.path.join(tempfile.gettempdir(), 'verif_c07_table')
     os.makedirs(d, exist_ok=True)
     return os.path.join(d, h.hexdigest()[:16] + '.json')
@@ -133,7 +157,7 @@ def prepare(tier, seed):
     if os.path.exists(path):
         return path
     files()
-    keys = [(w, di, mi, ri) for w in 'ABCN' for di in range(len(DESCS)) for mi in range(len(MEMOS)) for ri in range(3)]
+    keys = [(w, di, mi, ri) for w in ['A', 'B', 'C', 'N', 'MA', 'MB'] for di in range(len(DESCS)) for mi in range(len(MEMOS)) for ri in range(3)]
 
     def one(k):
         env = dict(os.environ)
@@ -180,6 +204,8 @@ def _load(which, mode='first_match'):
         rules = merchant_utils.get_all_rules(spath, match_mode=mode)
         return (rules, transforms)
     path = files()[which]
+    if which in ('MA', 'MB'):
+        mode = 'most_specific'
     rules = merchant_utils.get_all_rules(path, match_mode=mode)
     transforms = merchant_utils.get_transforms(path, match_mode=mode) if path else []
     return (rules, transforms)
@@ -200,11 +226,11 @@ def sequence(ops, final):
 
     def ob(di: int, ri: int, mi: int, m1none: bool) -> bool:
         """
-        pre: 0 <= di < 5 and 0 <= mi < 4 and 0 <= ri < 3
+        pre: 0 <= di < 6 and 0 <= mi < 4 and 0 <= ri < 3
         post: _
         """
         import copy
-        di, ri, mi = pick(di, 5), pick(ri, 3), pick(mi, 4)
+        di, ri, mi = pick(di, 6), pick(ri, 3), pick(mi, 4)
         amount = REGION_REPR[ri]
         desc = DESCS[di]
         memo = MEMOS[mi]
@@ -214,7 +240,7 @@ def sequence(ops, final):
         cur = ([], [])
         ok = True
         for op in ops:
-            if op in ('A', 'B', 'C', 'N', 'SA', 'SB'):
+            if op in ('A', 'B', 'C', 'N', 'SA', 'SB', 'MA', 'MB'):
                 cur = _load(op)
             elif op == 'c':
                 before_rules = [tuple(str(x) for x in r[:4]) for r in cur[0]]
@@ -232,7 +258,7 @@ def sequence(ops, final):
                     pass
         last = 'N'
         for op in ops:
-            if op in ('A', 'B', 'C', 'N', 'SA', 'SB'):
+            if op in ('A', 'B', 'C', 'N', 'SA', 'SB', 'MA', 'MB'):
                 last = op
         fin = last if final == '=' else final
         fin = fin[1] if fin in ('SA', 'SB') else fin        # same content => same expected classification
@@ -280,7 +306,7 @@ def sequences(tier, seed):
     rng = random.Random(700 + seed)
     loads = ['A', 'B', 'C', 'N']
     other = ['c'] + [f'e{k}' for k in range(len(EXPRS))]
-    hand = [(['SA', 'c', 'SB'], '='), (['SA', 'SB', 'c'], '='), (['SB', 'SA'], '='), (['SA', 'c'], 'SB'),
+    hand = [(['MA', 'c', 'MB'], '='), (['MB', 'c', 'MA', 'c'], 'MB'), (['MA', 'c', 'MB', 'c', 'MA'], '='), (['SA', 'c', 'SB'], '='), (['SA', 'SB', 'c'], '='), (['SB', 'SA'], '='), (['SA', 'c'], 'SB'),
             (['A', 'c'], '='), (['A', 'c', 'c'], '='), (['B', 'c'], '='), (['C', 'c'], '='), (['A', 'e3', 'c'], '='), (['B', 'e3'], '='),
             (['A', 'c'], 'A'), (['A', 'c', 'c'], 'A'), (['A', 'c'], 'B'), (['A'], 'C'), (['A'], 'N'), (['B', 'c'], 'A'), (['A', 'c', 'B'], 'B'),
             (['e0'], 'B'), (['e1'], 'A'), (['e2', 'e0'], 'A'), (['e3'], 'B'), (['e3', 'A', 'c'], 'B'), (['C', 'c'], 'A'), (['B', 'A'], 'C'),
@@ -307,6 +333,6 @@ def obligations(tier, seed):
                       bounds='the three rule files classify nine probe transactions differently as intended')]
     for i, (ops, fin) in enumerate(sequences(tier, seed)):
         obs.append(Obligation(id=f'seq-{i:03d}-' + '-'.join(ops) + '-then-' + fin, factory='sequence', params={'ops': ops, 'final': fin},
-                              timeout=120 if q else 900, group='history independence',
-                              bounds=f'history {ops}, then {'classify t on the rules already loaded' if fin == '=' else 'load ' + fin + ' and classify t'}; description one of 5 fixtures and memo one of 4 (incl. no memo column) (symbolic index), amount one of 3 region representatives (symbolic indices; t1 = t with memo P)'))
+                              timeout=120 if q else 900, group='history independence', replay_repeat=40,
+                              bounds=f'history {ops}, then {'classify t on the rules already loaded' if fin == '=' else 'load ' + fin + ' and classify t'}; description one of 6 fixtures and memo one of 4 (incl. no memo column) (symbolic index), amount one of 3 region representatives (symbolic indices; t1 = t with memo P)'))
     return obs
